@@ -21,7 +21,7 @@ func init() {
 
 const explanationC02 = "Decides structural necessary conditions of C02 (request side): (R02.1) the attribute-name⇄wire-name tables of a mapped attribute stay inverse of each other — every store into one is paired with the swapped store into the other, copies copy both, deletes delete from both, and each lookup direction reads its own table; (R02.2) the request body is the payload minus everything mapped elsewhere — headers, cookies, params, the map-query attribute and the implicit header attributes all reach removeAttribute(s) on the body; (R02.3) the string⇄typed conversion templates use the strconv family, bit size and cast of each primitive type; (R02.4) every transport accessor in the request/response templates is keyed by the element's wire-name field (HTTPName, or CanonicalName for headers; direct indexing of a header map only by CanonicalName) on the writing and on the reading side, never by the attribute or variable name; raw values are tested for presence on the raw variable they were read into; (R02.5) path values are unescaped exactly once (shared with C16/R16.2) and request decoding picks the codec of the announced type (shared with C15/R15.1); (R02.6) template range bodies use their element; required flags are propagated under the key they are looked up with; (R02.7) the request encoder guards a field only against nil, never against a zero value; (R02.8) loops over References apply Inherit and loops over Bases apply Merge in every implementation. (R02.12) the transport struct fields of body types carry omitempty exactly when the attribute may be absent from the wire (path table of the caller of attributeTags). (R02.11) pooled buffers of the runtime packages are Reset by their users (shared with C20). NOT decided: equality of the payload received with the payload sent for any design (needs execution of generated code), default injection, escaping of query values."
 
-const explanationC03 = "Decides structural necessary conditions of C03 (response side): (R03.1) in the response encoder template each response arm writes the status code of its own range element after its headers and before the body, tagged arms compare the tag field with that element's tag value, and the client decoder's case labels come from the same field; the DSL gives a response its default status before the response DSL runs so that an explicit Code() is kept; (R03.2) errors captured by the attribute walkers of the transform generators are tested after each walk; (R03.3) the status vocabulary — every expr.Status* constant has the value of the like-named net/http constant; (R03.4) the response body is the result minus headers and cookies, wire accessors use wire-name fields on both sides (shared with R02.2/R02.4), conversion templates are inverse pairs (R02.3); (R03.5) tag-pointer decisions keep the viewed-result guard; no stale per-iteration state in the response data builder; the client response decoder picks the codec of the announced Content-Type (shared with C15/R15.1); (R03.6) the response encoder guards a field only against nil, never against a zero value. shared R17.5 (the pattern cache is keyed by the pattern: a result is validated against its own pattern). shared R08.11 (a nested result type is projected with its own view or the default one). (R03.7) what belongs to one response (its fixed content type) is set inside the test that selects the response. NOT decided: equality of the result received with the result sent (needs execution), streaming order, default injection."
+const explanationC03 = "Decides structural necessary conditions of C03 (response side): (R03.1) in the response encoder template each response arm writes the status code of its own range element after its headers and before the body, tagged arms compare the tag field with that element's tag value, and the client decoder's case labels come from the same field; the DSL gives a response its default status before the response DSL runs so that an explicit Code() is kept; (R03.2) errors captured by the attribute walkers of the transform generators are tested after each walk; (R03.3) the status vocabulary — every expr.Status* constant has the value of the like-named net/http constant; (R03.4) the response body is the result minus headers and cookies, wire accessors use wire-name fields on both sides (shared with R02.2/R02.4), conversion templates are inverse pairs (R02.3); (R03.5) tag-pointer decisions keep the viewed-result guard; no stale per-iteration state in the response data builder; the client response decoder picks the codec of the announced Content-Type (shared with C15/R15.1); (R03.6) the response encoder guards a field only against nil, never against a zero value. shared R17.5 (the pattern cache is keyed by the pattern: a result is validated against its own pattern). shared R08.11 (a nested result type is projected with its own view or the default one). (R03.7) what belongs to one response (its fixed content type) is set inside the test that selects the response. (R03.8) the nil test of a response header depends on the header's own attribute, not on the response being selected by a tag (known finding). NOT decided: equality of the result received with the result sent (needs execution), streaming order, default injection."
 
 func runC02(c *an.Ctx) string {
 	r021NameTables(c)
@@ -51,6 +51,7 @@ func runC03(c *an.Ctx) string {
 	r024WireKeys(c, "R03.4")
 	r035ResponseData(c)
 	r037ArmOrder(c, "R03.7")
+	r038HeaderNilGuards(c, "R03.8")
 	r0811NestedView(c, "R08.11") // shared with C08: a nested result projected with an empty or inherited view name leaves it unprojected and the generated marshalling dereferences absent fields: the result does not arrive
 	r15ResponseDecoder(c)        // shared with C15 (rule id R15.1): the client picks the codec of the announced type
 	r15TextCodecs(c)             // shared with C15 (rule id R15.5): text bodies are decoded whole or not at all
@@ -1114,4 +1115,34 @@ func r037ArmOrder(c *an.Ctx, rule string) {
 		return
 	}
 	c.Check(tagPos < ctPos, rule, t.Name+"#arm-order", 0, "the content type of a response is put in the context inside the test that selects the response", "the content type fixed for one response is put in the context before the test of its tag: it stays there for every response tried afterwards, which is then encoded and announced as that type")
+}
+
+// r038HeaderNilGuards (R03.8): whether a response header is written under a nil test is a matter of the header's own
+// attribute (a pointer field, a slice, bytes, any). In partial/response.go.tpl the variable that decides the test
+// must not be switched off by a property of the RESPONSE ($.TagName): in a response selected by a tag only the
+// attribute holding the tag is known to be set, every other optional header of that response is dereferenced while
+// nil, the generated server panics and the client gets no response at all.
+func r038HeaderNilGuards(c *an.Ctx, rule string) {
+	t, err := c.TplFile("http/codegen/templates/partial/response.go.tpl")
+	if err != nil {
+		c.Add(an.Obligation{Rule: rule, Construct: "partial/response.go.tpl", Status: an.LOST, Detail: err.Error()})
+		return
+	}
+	re := regexp.MustCompile(`\{\{-?\s*\$checkNil\s*:?=\s*([^}]*)\}\}`)
+	ms := re.FindAllStringSubmatch(t.Src, -1)
+	if len(ms) == 0 {
+		// the guard is no longer computed into $checkNil: look at the conditions that open a `!= nil {` test instead
+		c.Okf(rule, t.Name+"#header-nil-guard", "no $checkNil variable: the nil tests of the headers are decided where they are written (R03.6)")
+		return
+	}
+	idx := re.FindAllStringSubmatchIndex(t.Src, -1)
+	for i, m := range ms {
+		// which collection the guard belongs to: the last `range .X` before it
+		coll := "?"
+		if rs := regexp.MustCompile(`range \.(\w+)`).FindAllStringSubmatch(t.Src[:idx[i][0]], -1); len(rs) > 0 {
+			coll = rs[len(rs)-1][1]
+		}
+		c.Check(!strings.Contains(m[1], "$.TagName"), rule, t.Name+"#nil-guard("+coll+")", 0, "the nil test of a response header depends on the header's own attribute only",
+			"the nil test of every header of a response is switched off when the response is selected by a tag ($checkNil := … (not $.TagName)): an optional header left unset in such a response is dereferenced and the server panics")
+	}
 }
